@@ -303,13 +303,13 @@ theorem renameLease_frame {s : State} (l : Lease) (hn : Bytes) (e : Nat) :
 theorem commitLease_inv {O : Oracle} {c : Conf} {s : State} {l : Lease} (hostname : Bytes) (h : Inv c s)
     (hl : l ∈ s.leases) : Inv c (commitLease O c l hostname s) := by
   unfold commitLease
-  have hi := renameLease_inv (commitName O l hostname s) (s.now + c.leaseTime) h hl
+  have hi := renameLease_inv (commitName O c l hostname s) (s.now + c.leaseTime) h hl
   obtain ⟨A, B, hs⟩ := List.append_of_mem hl
-  have hle := (renameLease_frame (s := s) l (commitName O l hostname s) (s.now + c.leaseTime)).1
+  have hle := (renameLease_frame (s := s) l (commitName O c l hostname s) (s.now + c.leaseTime)).1
   rw [hs, mapId_split (by rw [← hs]; exact h.idNodup)] at hle
-  have hmem : ({ l with host := commitName O l hostname s, exp := s.now + c.leaseTime } : Lease) ∈
-      (renameLease l (commitName O l hostname s) (s.now + c.leaseTime) s).leases := by
+  have hmem : ({ l with host := commitName O c l hostname s, exp := s.now + c.leaseTime } : Lease) ∈
+      (renameLease l (commitName O c l hostname s) (s.now + c.leaseTime) s).leases := by
     rw [hle]; exact mem_middle.2 (.inl rfl)
-  exact Inv_setIP_same hi (y := { l with host := commitName O l hostname s, exp := s.now + c.leaseTime }) hmem
+  exact Inv_setIP_same hi (y := { l with host := commitName O c l hostname s, exp := s.now + c.leaseTime }) hmem
 
 end AGH.C10
